@@ -357,19 +357,26 @@ impl Components {
             for q_out in q_out_by_srv.values() {
                 q_out_tot = vecvecsum(&*q_out_tot, q_out);
             }
+            let q_out_tot_an = q_out_tot.iter().sum::<f32>();
 
-            if aux_tot.iter().sum::<f32>() > 0.0 && q_out_tot.iter().sum::<f32>() == 0.0 {
+            if aux_tot.iter().sum::<f32>() > 0.0 && q_out_tot_an == 0.0 {
                 return Err(EpbdError::WrongInput(format!("Sin datos de energía saliente para hacer el reparto de los consumos auxiliares del sistema {}", id)));
             };
 
             // Calculamos la fracción de cada servicio sobre el total
+            // En los pasos sin energía saliente se usa la fracción anual del servicio
             let mut q_out_frac_by_srv = q_out_by_srv;
             let out_services: Vec<Service> = q_out_frac_by_srv.keys().cloned().collect();
             for service in &out_services {
+                let frac_an = if q_out_tot_an > 0.0 {
+                    q_out_frac_by_srv[service].iter().sum::<f32>() / q_out_tot_an
+                } else {
+                    0.0
+                };
                 let values = q_out_frac_by_srv[service]
                     .iter()
                     .zip(q_out_tot.iter())
-                    .map(|(val, tot)| if tot > &0.0 { val / tot } else { 0.0 })
+                    .map(|(val, tot)| if tot > &0.0 { val / tot } else { frac_an })
                     .collect();
                 q_out_frac_by_srv.insert(*service, values);
             }
